@@ -105,6 +105,9 @@ def merge_evidence(evs):
         cov["theorems"] = cov.get("theorems", []) + [t for t in c.get("theorems", []) if t not in seen]
         cov["obligations"] -= len(dup)
         cov["discharged"] -= len(dup)
+        apt = dict(cov.get("axioms_per_theorem", {}))
+        apt.update(c.get("axioms_per_theorem", {}))
+        cov["axioms_per_theorem"] = apt
         cov["checker_cmd"] = cov.get("checker_cmd", "") + " ; " + c.get("checker_cmd", "")
         cov["trusted_base"] = cov.get("trusted_base", []) + [t for t in c.get("trusted_base", []) if t not in cov.get("trusted_base", [])]
         cov["rule"] = (cov.get("rule", "") + " || " + c.get("rule", "")).strip(" |")
